@@ -172,11 +172,14 @@ func genToken(c *core.Ctx, allowBrackets bool, depth int) string {
 
 func genStructuredTag(c *core.Ctx) (string, structured) {
 	var st structured
-	switch c.Rng.Intn(4) {
+	switch c.Rng.Intn(5) {
 	case 0:
 		st.val = ""
 	case 1:
 		st.val = "${" + genToken(c, false, 0) + ":" + genToken(c, true, 1) + "}"
+	case 4:
+		// a value that looks like an argument is still the value: it stands before the first top-level comma
+		st.val = []string{"required=false", "Required=false", "qualifier=main", "required=", "k=v", "validate=min=1", "x=1 2"}[c.Rng.Intn(7)]
 	default:
 		st.val = genToken(c, true, 0)
 		if c.Rng.Intn(4) == 0 {
